@@ -214,8 +214,19 @@ def fixed_scenarios():
     return out
 
 
+def hash_sign_scenarios():
+    """a pattern file has one pattern per line; a '#' inside a line is part of the pattern"""
+    out = []
+    for pats in (["take #2.mov", "Scene #3/"], ["notes # draft.txt"]):
+        tree = {"take #2.mov": "t2", "take": "plain take", "Scene #3/a.mov": "a", "Scene/b.mov": "b", "notes # draft.txt": "n", "notes": "plain notes", "keep.mov": "k"}
+        out.append({"profile": "c12-hash-sign", "root": "root", "tree": tree,
+                    "ops": [{"op": "create", "at": "", "h": ["md5"], "now": "2026-03-01 12:00:01", "ii": pats}, {"op": "create", "at": "", "h": ["md5"], "now": "2026-03-01 12:00:02"},
+                            {"op": "verify", "at": ""}, {"op": "diff", "at": ""}, {"op": "verifydh", "at": ""}]})
+    return out
+
+
 def run(ctx):
-    scs = fixed_scenarios() + late_dir_pattern_scenarios() + cli_pattern_dh_scenarios() + path_dependent_scenarios() + _scn.standard_pool(ctx, ctx.scale(60, 1000), ctx.scale(25, 400))
+    scs = hash_sign_scenarios() + fixed_scenarios() + late_dir_pattern_scenarios() + cli_pattern_dh_scenarios() + path_dependent_scenarios() + _scn.standard_pool(ctx, ctx.scale(60, 1000), ctx.scale(25, 400))
     for k, sc in enumerate(scs):
         if k % 3 == 0 and "s/.DS_Store" not in sc["tree"]:
             sc["tree"][".DS_Store"] = "finder junk"
